@@ -24,7 +24,8 @@ RULE = ('logs are printed by a synthesiser from a list-of-tables model, round-ro
         'aligned 2022+ / custom up to 15 digits) x truncation (complete, cut after k rows, after one row, header only, '
         'after the loop line, inside the breakdown) x log file (echoed script, blank and whitespace-only lines) or screen '
         'output x step-range plan of the last run (junction, disjoint, overlap on a common grid, restart from 0, nested, '
-        'out of order, starting before, other thermo interval) x banner kind (plain, "- Update n", "-ICMS", development, '
+        'out of order, starting before, other thermo interval) x that relation realised by the last run or by the last but one '
+        '(the final run then carries on past everything printed) x banner kind (plain, "- Update n", "-ICMS", development, '
         'not on the first line, absent) x 1-6 run/minimize blocks x 2-9 keywords (Step first / in the middle / absent, '
         'integer keywords, bracketed names) x CRLF x keyword set changed between runs x whole-number last stage x nan/inf; '
         'input kind (str text, str path, pathlib.Path, bytes, BytesIO, open "rb" file) and constructor/read form cycle '
@@ -262,6 +263,8 @@ def check_flatten(ctx, log, runs, style, lo=None, hi=None, where='flatten', call
     else:
         label, status = M.flatten_class(steps, style)
     rec.count(f'flatten:{style}:class:{label}')
+    if style != 'all' and M.backstep_then_overlap(steps):
+        rec.count(f'flatten:{style}:backstep-then-overlap:{status}')
     if status == 'd12':
         where = 'flatten'
     if where != 'flatten':
@@ -604,7 +607,7 @@ def _logs(ctx, lmp, feeder):
         rec.count('class:nruns:%d' % len(model['runs']))
         rec.count('class:input:' + kind)
         rec.count('class:form:' + form)
-        for flag in ('colchange', 'flip', 'blowup', 'big'):
+        for flag in ('colchange', 'flip', 'blowup', 'big', 'middle'):
             if spec.get(flag):
                 rec.count('class:' + flag)
         if spec['eol'] != '\n':
@@ -679,7 +682,10 @@ def _histories(ctx, lmp, feeder):
         base['trunc'] = 'complete'
         total = max(nlogs, 2 + (i // 4) % 6)
         plan = GEN.PLANS[(i // 3) % len(GEN.PLANS)]
-        steps = GEN.plan_steps(rng, plan, total)
+        middle = (i // 2) % 3 == 1 and total >= 3 and plan != 'junction'
+        if middle:
+            rec.count('history:relation-at-last-but-one')
+        steps = GEN.plan_steps(rng, plan, total, middle=middle)
         cuts = sorted(rng.choice(np.arange(1, total), nlogs - 1, replace=False).tolist()) if nlogs > 1 else []
         bounds = [0] + cuts + [total]
         same_version = (i // 5) % 2 == 0
@@ -812,6 +818,9 @@ def _floors(ctx):
         f('class:step_pos:' + c, 40)
     for c in ('colchange', 'flip', 'blowup', 'crlf'):
         f('class:' + c, 10)
+    f('class:middle', 200)
+    f('history:relation-at-last-but-one', 40)
+    f('flatten:first:backstep-then-overlap:must-hold', 20)
     for k in range(1, 7):
         f('class:nruns:%d' % k, 10)
     f('class:form:ctor', 80)
